@@ -149,6 +149,17 @@ Theorem update_int_max :
 Proof. exact update_int_max_lemma. Qed.
 Print Assumptions update_int_max.
 
+(* The repaired integer rule of fixes/C02-1.patch (zero tested explicitly instead of
+   np.maximum) agrees with the coded rule on non-negative data, so the integer
+   clauses above are unaffected by that repair; on signed data it keeps a non-zero
+   value against a zero on either side. *)
+Theorem update_fixed_agrees :
+  (forall m s o, nonneg_px s -> nonneg_px o -> upd_px_fixed m s o = upd_px m s o) /\
+  (forall m a b, is_int_mode m = true ->
+                 upd_px_fixed m (PxI a) (PxI 0) = PxI a /\ upd_px_fixed m (PxI 0) (PxI b) = PxI b).
+Proof. exact update_fixed_agrees_lemma. Qed.
+Print Assumptions update_fixed_agrees.
+
 (* update's validity test is "defined" on well-typed pixels (for F16x3: no channel NaN) *)
 Theorem update_validity_is_definedness :
   forall m s, px_ok m s = true -> src_valid m s = negb (undef_px s).
